@@ -693,6 +693,8 @@ def r12(ctx, P):
     ctx.saw(fn)
     tr = list(fn.calls('jls_bk_truncate'))
     if not tr:
+        if hasattr(ctx, '_map') and 'C05.12' not in ctx._map:
+            return          # run for another property that shares other rules of this set: C03.b reports the missing truncation
         raise AnalysisBroken('jls_rd_open: no truncation')
     # compares of the chunk tag with the INDEX kind
     tests = []
